@@ -108,20 +108,33 @@ func LoadKnown(path string) ([]Known, error) {
 		if !strings.HasPrefix(line, "known:") {
 			continue
 		}
-		fields := strings.Fields(strings.TrimPrefix(line, "known:"))
+		rest := strings.TrimSpace(strings.TrimPrefix(line, "known:"))
 		k := Known{}
-		rest := []string{}
-		for _, fl := range fields {
-			switch {
-			case strings.HasPrefix(fl, "property=") && k.Prop == "":
-				k.Prop = strings.TrimPrefix(fl, "property=")
-			case strings.HasPrefix(fl, "key=") && k.Key == "":
-				k.Key = strings.TrimPrefix(fl, "key=")
-			default:
-				rest = append(rest, fl)
+		if strings.HasPrefix(rest, "property=") {
+			i := strings.IndexAny(rest, " \t")
+			if i < 0 {
+				continue
 			}
+			k.Prop = strings.TrimPrefix(rest[:i], "property=")
+			rest = strings.TrimSpace(rest[i:])
 		}
-		k.Text = strings.Join(rest, " ")
+		if strings.HasPrefix(rest, "key=\"") {
+			rest = rest[5:]
+			j := strings.Index(rest, "\"")
+			if j < 0 {
+				continue
+			}
+			k.Key = rest[:j]
+			rest = strings.TrimSpace(rest[j+1:])
+		} else if strings.HasPrefix(rest, "key=") {
+			i := strings.IndexAny(rest, " \t")
+			if i < 0 {
+				i = len(rest)
+			}
+			k.Key = rest[4:i]
+			rest = strings.TrimSpace(rest[i:])
+		}
+		k.Text = rest
 		if k.Prop != "" && k.Key != "" {
 			out = append(out, k)
 		}
